@@ -176,7 +176,7 @@ V("c06-option-dropped", ["C06", "C07"], "M", SII, "header, metadata = read_metad
 V("c06-persisted", ["C06", "C07", "C08"], "M", ENC, '            "type_code": obj.type_code,\n', '            "type_code": obj.type_code,\n            "records_per_chunk": obj.records_per_chunk,\n', "records_per_chunk")
 V("c06-normalize-ge", "C06", "E", ARR, "if chunksize in (None, -1) or chunksize > dim_size:", "if chunksize in (None, -1) or chunksize >= dim_size:")
 V("c06-normalize-wrong", "C06", "M", ARR, "if chunksize in (None, -1) or chunksize > dim_size:", "if chunksize in (None, -1) or chunksize < dim_size:", "normalize_chunksize")
-V("c06-normalize-bypassed", "C06", "M", ARR, "self.records_per_chunk = normalize_chunksize(self.records_per_chunk, self.shape[0])", "self.records_per_chunk = int(self.records_per_chunk)", "C06-Q2")
+V("c06-normalize-bypassed", "C06", "M", ARR, "self.records_per_chunk = normalize_chunksize(self.records_per_chunk, self.shape[0])", "self.records_per_chunk = int(self.records_per_chunk)", "C06-Q10")
 V("c06-eq-min", "C06", "E", ARR, '''    if chunksize in (None, -1) or chunksize > dim_size:
         return dim_size
 
@@ -225,7 +225,7 @@ V("c07-eq-broader-handler", ["C07", "C09", "C18"], "E", SII, "        except Cac
 V("c08-units-key", "C08", "M", DEC, "encoding['units']", "encoding['unit']", "unit")
 V("c08-float-cast", "C08", "M", ENC, 'encoded = (obj - reference).astype("int64").tolist()', 'encoded = (obj - reference).astype("float64").tolist()', "cast")
 V("c08-object-hook", "C08", "M", CAC, "json.loads(cache, object_hook=postprocess)", "json.loads(cache)", "tuple")
-V("c08-M-decoder-removed", "C08", "M", DEC, 'decoders = {"M": decode_datetime}', "decoders = {}", "decoder")
+V("c08-M-decoder-removed", "C08", "M", DEC, 'decoders = {"M": decode_datetime}', "decoders = {}", "offsets")
 V("c08-coercion-removed", ["C08", "C07"], "M", ENC, "    obj = np.asarray(obj)\n\n", "", "K5")
 V("c08-preprocess-skipped", "C08", "M", CAC, "return json.dumps(preprocess(encoded))", "return json.dumps(encoded)", "became [")
 V("c08-tuple-branch", "C08", "M", ENC, '''    elif isinstance(data, tuple):
